@@ -229,6 +229,23 @@ class Enumerator:
                 names.setdefault(c.name, []).append(c)
         for n, cs in names.items():
             self._enum_by_name[n] = cs[0] if len(cs) == 1 else None
+        # enums whose __eq__ compares .value with a str operand (so `"detection" == Task.DETECTION` holds)
+        self._str_eq: Dict[str, Dict[str, object]] = {}
+        for c in index.classes.values():
+            if not c.is_enum:
+                continue
+            m = c.find_method("__eq__")
+            if m is None:
+                continue
+            src = ast.unparse(m.node)
+            if "isinstance(" in src and "str)" in src and "self.value ==" in src:
+                vals = {}
+                for name, v in c.enum_members:
+                    try:
+                        vals[name] = ast.literal_eval(v)
+                    except Exception:
+                        pass
+                self._str_eq[c.qualname] = vals
 
     # -- public -------------------------------------------------------------------
     def function(self, fi: FuncInfo, env: Optional[Dict[str, ast.expr]] = None, base: Optional[Path] = None) -> List[Path]:
@@ -954,7 +971,12 @@ class Enumerator:
         elif isinstance(op, (ast.Eq, ast.NotEq)):
             cl, cr = self._const(l), self._const(r)
             if cl is not None and cr is not None:
-                res = [(p, cl == cr)]
+                val = cl == cr
+                # str literal vs member of an enum with a str-aware __eq__
+                for a, b in ((cl, cr), (cr, cl)):
+                    if a[0] == "lit" and isinstance(a[1], str) and b[0] == "enum" and b[1] in self._str_eq:
+                        val = self._str_eq[b[1]].get(b[2]) == a[1]
+                res = [(p, val)]
             else:
                 if cl is not None and cr is None:
                     l, r, cl, cr = r, l, cr, cl
